@@ -21,6 +21,10 @@ NONTRIVIAL = ('states whose word has length >= 2 and contains both a 0 and a 1 (
               'distinguishable); comparison cases where noise or the threshold changes at least one decision')
 
 MAXLEAF = 12
+XFULL_MAXLEN = 8          # leaves up to this length are expanded with the op set 'xfull'
+AFTER_ALL_MAXLEN = 8      # states up to this length: len/ones/zeros of the operand are re-queried after EVERY op (longer: after every 7th op;
+                          # 7 is coprime with the 24 (kind, form) pairs per operand word, so every pair is hit over the words)
+REQUERY_STRIDE = 7
 _LIB = {}
 
 
@@ -79,9 +83,27 @@ STR_FORMS = ['str', 'str_sp', 'str_cm', 'str_cmsp']
 SEQ_FORMS = ['list', 'tuple', 'list_bool', 'nd_bool', 'nd_int', 'nd_float', 'nd_u8']
 SCALAR_FORMS = ['sc_int', 'sc_bool', 'sc_float', 'sc_npint', 'sc_npbool']
 ND = {'nd_bool': np.bool_, 'nd_int': np.int64, 'nd_float': np.float64, 'nd_u8': np.uint8}
+# hardening pass: further spellings of the SAME word (every sample dtype, numerically equal element types, mixed
+# separators, non-contiguous input arrays, further scalar kinds).  They are used for the leaf constructions, as BFS start
+# forms, and as operand forms of the op set 'xfull'.
+XSTR_FORMS = ['str_mix']
+XND = {'nd_i8': np.int8, 'nd_i16': np.int16, 'nd_i32': np.int32, 'nd_u16': np.uint16, 'nd_u32': np.uint32,
+       'nd_u64': np.uint64, 'nd_f16': np.float16, 'nd_f32': np.float32, 'nd_c64': np.complex64, 'nd_c128': np.complex128,
+       'nd_obj': object}
+XSEQ_FORMS = ['list_float', 'list_negzero', 'list_complex', 'list_np', 'list_mixed', 'tuple_bool', 'tuple_float'] + \
+    list(XND) + ['nd_strided', 'nd_rev']
+XSCALAR_FORMS = ['sc_npf64', 'sc_npf32', 'sc_npf16', 'sc_npu8', 'sc_npi8', 'sc_0d_int', 'sc_0d_bool', 'sc_0d_float',
+                 'sc_0d_u8', 'sc_complex', 'sc_npc64', 'sc_negzero']
+ND.update(XND)
+_NPSC = {'sc_npint': np.int64, 'sc_npbool': np.bool_, 'sc_npf64': np.float64, 'sc_npf32': np.float32, 'sc_npf16': np.float16,
+         'sc_npu8': np.uint8, 'sc_npi8': np.int8, 'sc_npc64': np.complex64}
+_0D = {'sc_0d_int': np.int64, 'sc_0d_bool': np.bool_, 'sc_0d_float': np.float64, 'sc_0d_u8': np.uint8}
+_MIXSEP = (' ', ',', ', ', '')
+_NPMIX = (np.int64, np.float32, np.bool_, np.uint8)
+_PYMIX = (int, bool, float, complex)
 
 
-def forms_for(n, leaf):
+def forms_for(n, leaf, ext=False):
     """accepted container forms of a word of length n (the empty *string* is not an accepted spelling)"""
     f = list(SEQ_FORMS)
     if n >= 1:
@@ -91,7 +113,13 @@ def forms_for(n, leaf):
             f = f + SCALAR_FORMS
     else:
         f = f + ['bseq']
+    if ext:
+        f = f + (XSTR_FORMS if n >= 1 else []) + XSEQ_FORMS + (XSCALAR_FORMS if (leaf and n == 1) else [])
     return f
+
+
+def is_ext(form):
+    return form in XSTR_FORMS or form in XSEQ_FORMS or form in XSCALAR_FORMS
 
 
 def make(bits, form):
@@ -100,22 +128,34 @@ def make(bits, form):
     if form == 'str_sp': return ' '.join(s)
     if form == 'str_cm': return ','.join(s)
     if form == 'str_cmsp': return ', '.join(s)
+    if form == 'str_mix': return ''.join(c + (_MIXSEP[i % 4] if i < len(s) - 1 else '') for i, c in enumerate(s))
     if form == 'list': return [int(b) for b in bits]
     if form == 'tuple': return tuple(int(b) for b in bits)
     if form == 'list_bool': return [bool(b) for b in bits]
+    if form == 'list_float': return [float(b) for b in bits]
+    if form == 'list_negzero': return [1.0 if b else -0.0 for b in bits]
+    if form == 'list_complex': return [complex(b) for b in bits]
+    if form == 'list_np': return [_NPMIX[i % 4](b) for i, b in enumerate(bits)]
+    if form == 'list_mixed': return [_PYMIX[i % 4](b) for i, b in enumerate(bits)]
+    if form == 'tuple_bool': return tuple(bool(b) for b in bits)
+    if form == 'tuple_float': return tuple(float(b) for b in bits)
     if form in ND: return np.array(bits, dtype=ND[form])
+    if form == 'nd_strided': return np.repeat(np.array(bits, dtype=np.int64), 2)[::2]        # non-contiguous view
+    if form == 'nd_rev': return np.array(bits[::-1], dtype=np.uint8)[::-1]                     # negative stride
     if form == 'bseq': return lib()[0](np.array(bits, dtype=np.uint8))
     if form == 'sc_int': return int(bits[0])
     if form == 'sc_bool': return bool(bits[0])
     if form == 'sc_float': return float(bits[0])
-    if form == 'sc_npint': return np.int64(bits[0])
-    if form == 'sc_npbool': return np.bool_(bits[0])
+    if form == 'sc_complex': return complex(bits[0])
+    if form == 'sc_negzero': return 1.0 if bits[0] else -0.0
+    if form in _NPSC: return _NPSC[form](bits[0])
+    if form in _0D: return np.array(bits[0], dtype=_0D[form])
     raise KeyError(form)
 
 
 def snap(obj):
     if isinstance(obj, list):
-        return ('list', list(obj), [type(x) for x in obj])
+        return ('list', list(obj), [type(x) for x in obj], repr(obj))
     if isinstance(obj, np.ndarray) or isinstance(obj, lib()):
         return ('buf', freeze(obj))
     return ('imm', repr(obj))
@@ -123,7 +163,7 @@ def snap(obj):
 
 def same(obj, s):
     if s[0] == 'list':
-        return obj == s[1] and [type(x) for x in obj] == s[2]
+        return obj == s[1] and [type(x) for x in obj] == s[2] and repr(obj) == s[3]
     if s[0] == 'buf':
         return unchanged(obj, s[1])
     return repr(obj) == s[1]
@@ -176,26 +216,99 @@ INVALID_OPERANDS = [
     ("'1 0; 0 1'", lambda: '1 0; 0 1'), ('[1,2]', lambda: [1, 2]), ("'012'", lambda: '012'), ('[-1]', lambda: [-1]),
 ]
 
+# hardening pass: further operands that must be refused (one defect each: value strictly inside (0,1), NaN, inf, complex
+# with an imaginary part, values that wrap to 0/1 in uint8, every dtype, ragged / nested / EMPTY 2-D containers, strings
+# with a row separator or an invalid token, non-data objects).  Executed in both orders from the leaves of length <= 8.
+XINVALID_OPERANDS = [
+    ('[nan]', lambda: [float('nan')]), ('[inf]', lambda: [float('inf')]), ('[1j]', lambda: [1j]), ('[0.5+0j]', lambda: [0.5 + 0j]),
+    ('[1+1e-9j]', lambda: [1 + 1e-9j]), ('(0.5,)', lambda: (0.5,)), ('(1,0,0.5)', lambda: (1, 0, 0.5)), ('[0,1,2]', lambda: [0, 1, 2]),
+    ('[1e-9]', lambda: [1e-9]), ('[5e-324]', lambda: [5e-324]), ('[1.0000001]', lambda: [1.0000001]), ('[0.9999999]', lambda: [0.9999999]),
+    ('[-1.0]', lambda: [-1.0]), ('[255]', lambda: [255]), ('[256]', lambda: [256]), ('[257]', lambda: [257]), ('[-255]', lambda: [-255]),
+    ('[-256]', lambda: [-256]), ('[2**64]', lambda: [2 ** 64]), ('[True,2]', lambda: [True, 2]),
+    ('nd_f32[0.5]', lambda: np.array([0.5], dtype=np.float32)), ('nd_f16[0.5]', lambda: np.array([0.5], dtype=np.float16)),
+    ('nd_f64[nan]', lambda: np.array([np.nan])), ('nd_f64[1,5e-324]', lambda: np.array([1, 5e-324])),
+    ('nd_i8[-1]', lambda: np.array([-1], dtype=np.int8)), ('nd_i8[-128]', lambda: np.array([-128], dtype=np.int8)),
+    ('nd_u8[255]', lambda: np.array([255], dtype=np.uint8)), ('nd_u16[256]', lambda: np.array([256], dtype=np.uint16)),
+    ('nd_u16[257]', lambda: np.array([257], dtype=np.uint16)), ('nd_c64[1j]', lambda: np.array([1j], dtype=np.complex64)),
+    ('nd_obj[2]', lambda: np.array([2], dtype=object)), ('nd_obj[None]', lambda: np.array([None], dtype=object)),
+    ('nd_bool2d', lambda: np.zeros((2, 2), dtype=bool)), ('nd(1,1)', lambda: np.ones((1, 1), dtype=np.uint8)),
+    ('nd(1,0)', lambda: np.zeros((1, 0))), ('nd(0,1)', lambda: np.zeros((0, 1))), ('nd(2,0)', lambda: np.zeros((2, 0), dtype=np.uint8)),
+    ('nd(0,0)', lambda: np.zeros((0, 0), dtype=bool)), ('nd(1,1,1)', lambda: np.zeros((1, 1, 1), dtype=np.uint8)),
+    ('[[]]', lambda: [[]]), ('[[],[]]', lambda: [[], []]), ('([],)', lambda: ([],)), ('[[0],[1,0]]', lambda: [[0], [1, 0]]),
+    ('[0,[1]]', lambda: [0, [1]]), ('[[0],1]', lambda: [[0], 1]), ('[[0],[]]', lambda: [[0], []]), ('((0,1),(1,0))', lambda: ((0, 1), (1, 0))),
+    ('[(0,1)]', lambda: [(0, 1)]), ('[nd[0,1]]', lambda: [np.array([0, 1])]), ('[[[0]]]', lambda: [[[0]]]),
+    ("'0;1'", lambda: '0;1'), ("';'", lambda: ';'), ("'01;10'", lambda: '01;10'), ("'1;'", lambda: '1;'), ("'0.5'", lambda: '0.5'),
+    ("'0 0.5'", lambda: '0 0.5'), ("'1j'", lambda: '1j'), ("'a'", lambda: 'a'), ("'01a'", lambda: '01a'), ("'0 1 2'", lambda: '0 1 2'),
+    ("'10 2'", lambda: '10 2'), ("'-1'", lambda: '-1'), ("'1 -1'", lambda: '1 -1'), ("'nan'", lambda: 'nan'), ("'1e0'", lambda: '1e0'),
+    ("'0x1'", lambda: '0x1'), ("'True'", lambda: 'True'), ("'0_1'", lambda: '0_1'), ("'\uff11'", lambda: '\uff11'),
+    ('[None]', lambda: [None]), ("['a']", lambda: ['a']), ('object()', lambda: object()), ('int', lambda: int),
+    ('2+0j', lambda: 2 + 0j), ('1.5', lambda: 1.5), ('0.5', lambda: 0.5), ('nan', lambda: float('nan')), ('np.int64(2)', lambda: np.int64(2)),
+    ('np.float64(0.5)', lambda: np.float64(0.5)), ('0d(2)', lambda: np.array(2)), ('0d(0.5)', lambda: np.array(0.5)),
+]
+# operands on which the statement is silent (not one of the "accepted containers", but every element is numerically 0 or
+# 1): either ValueError/TypeError or a valid sequence; never another exception, never an invalid object, operand untouched
+FREE_OPERANDS = [
+    ('0', lambda: 0), ('1', lambda: 1), ('True', lambda: True), ('False', lambda: False), ('0.0', lambda: 0.0), ('1.0', lambda: 1.0),
+    ('1+0j', lambda: 1 + 0j), ('np.int64(1)', lambda: np.int64(1)), ('np.uint8(0)', lambda: np.uint8(0)), ('np.bool_(1)', lambda: np.bool_(True)),
+    ('np.float64(1)', lambda: np.float64(1.0)), ('np.float32(0)', lambda: np.float32(0)), ('0d(1)', lambda: np.array(1)),
+    ('0d(True)', lambda: np.array(True)), ('0d(0.0)', lambda: np.array(0.0)),
+    ("''", lambda: ''), ("' '", lambda: ' '), ("','", lambda: ','), ("'0\\t1'", lambda: '0\t1'), ("'0\\n1'", lambda: '0\n1'),
+    ("' 01 '", lambda: ' 01 '), ("'0,,1'", lambda: '0,,1'), ("'0  1'", lambda: '0  1'), ("',01,'", lambda: ',01,'),
+    ("'1.0'", lambda: '1.0'), ("'0.0 1.0'", lambda: '0.0 1.0'), ("'+1'", lambda: '+1'), ("'-0'", lambda: '-0'), ("'1+0j'", lambda: '1+0j'),
+    ('range(2)', lambda: range(2)), ('range(0)', lambda: range(0)), ('bytearray([0,1])', lambda: bytearray([0, 1])),
+    ("b'\\x01'", lambda: b'\x01'), ("b'01'", lambda: b'01'), ('memoryview', lambda: memoryview(bytes([0, 1]))),
+    ('{0,1}', lambda: {0, 1}), ('frozenset', lambda: frozenset([1])), ('{0:1}', lambda: {0: 1}), ('generator', lambda: (i for i in (0, 1))),
+    ('iter([0,1])', lambda: iter([0, 1])), ("['0','1']", lambda: ['0', '1']), ("nd['1']", lambda: np.array(['1'])),
+    ('electrical_signal([0,1])', lambda: lib()[1]([0, 1])), ('electrical_signal(1)', lambda: lib()[1](1)),
+    ('[binary_sequence(1)]', lambda: [lib()[0]('1')]), ('[0d(1),0d(0)]', lambda: [np.array(1), np.array(0)]),
+    ('deque([0,1])', lambda: __import__('collections').deque([0, 1])), ("array('B',[0,1])", lambda: __import__('array').array('B', [0, 1])),
+]
+BADTAB = {'bad+': INVALID_OPERANDS, 'badr+': INVALID_OPERANDS, 'xbad+': XINVALID_OPERANDS, 'xbadr+': XINVALID_OPERANDS,
+          'free+': FREE_OPERANDS, 'freer+': FREE_OPERANDS}
+
 _OPS = {}
+NSPLIT, NSELFEMPTY = 5, 3
 
 
 def ops_for(mode):
-    """deterministic list of op descriptors. 'full': w of length <= 4, 'deep': w of length <= 2"""
+    """deterministic list of op descriptors. 'full': w of length <= 4, 'deep': w of length <= 2, 'xfull' (leaves of
+    length <= 8): 'full' + every word of length <= 4 in every EXTENDED operand form + the extended refusal table + the
+    operands the statement is silent on"""
     if mode in _OPS:
         return _OPS[mode]
-    wl = 4 if mode == 'full' else 2
+    wl = 2 if mode == 'deep' else 4
     ops = [('~',)] + [('[]', k) for k in range(len(SLICES))] + [('++',)]
     for wc in words(wl):
         n = wc.bit_length() - 1
         for f in forms_for(n, leaf=False):
             ops.append(('+', wc, f))
             ops.append(('r+', wc, f))
-    if mode == 'full':
+    if mode in ('full', 'xfull'):
         for k in range(len(INVALID_OPERANDS)):
             ops.append(('bad+', k))
             ops.append(('badr+', k))
+    # hardening pass: programs whose second operand is derived from the first one (same object on both sides of +)
+    ops += [('split', j) for j in range(NSPLIT)] + [('+e', j) for j in range(NSELFEMPTY)] + [('e+', j) for j in range(NSELFEMPTY)]
+    ops += [('+~',), ('~+',)]
+    if mode == 'xfull':
+        for wc in words(wl):
+            n = wc.bit_length() - 1
+            for f in forms_for(n, leaf=False, ext=True):
+                if is_ext(f):
+                    ops.append(('+', wc, f))
+                    ops.append(('r+', wc, f))
+        for t, tab in (('xbad+', XINVALID_OPERANDS), ('xbadr+', XINVALID_OPERANDS), ('free+', FREE_OPERANDS), ('freer+', FREE_OPERANDS)):
+            ops += [(t, k) for k in range(len(tab))]
     _OPS[mode] = ops
     return ops
+
+
+def split_k(n, j):
+    return min(n, max(0, (0, 1, n // 2, n - 1, n)[j]))
+
+
+def empty_k(n, j):
+    return (0, n // 2, n)[j]
 
 
 _W = {}
@@ -226,6 +339,12 @@ def model_apply(bits, op):
         return bits_of(op[1]) + bits
     if t == '++':
         return bits + bits
+    if t in ('split', '+e', 'e+'):
+        return bits
+    if t == '+~':
+        return bits + tuple(1 - b for b in bits)
+    if t == '~+':
+        return tuple(1 - b for b in bits) + bits
     raise KeyError(op)
 
 
@@ -241,7 +360,24 @@ def real_apply(a, op):
         return operand(op[1], op[2])[0] + a
     if t == '++':
         return a + a
+    if t == 'split':
+        k = split_k(len(a), op[1])
+        return a[:k] + a[k:]
+    if t == '+e':
+        k = empty_k(len(a), op[1])
+        return a + a[k:k]
+    if t == 'e+':
+        k = empty_k(len(a), op[1])
+        return a[k:k] + a
+    if t == '+~':
+        return a + ~a
+    if t == '~+':
+        return ~a + a
     raise KeyError(op)
+
+
+_SPLITN = ('0', '1', 'n//2', 'n-1', 'n')
+_EMPTYN = ('0', 'n//2', 'n')
 
 
 def op_name(op):
@@ -252,12 +388,17 @@ def op_name(op):
     if t in ('+', 'r+'):
         w = ''.join(map(str, bits_of(op[1])))
         return f"a + <{op[2]} {w!r}>" if t == '+' else f"<{op[2]} {w!r}> + a"
-    if t == 'bad+': return f'a + {INVALID_OPERANDS[op[1]][0]}'
-    if t == 'badr+': return f'{INVALID_OPERANDS[op[1]][0]} + a'
+    if t == 'split': return f'a[:k] + a[k:] (k={_SPLITN[op[1]]})'
+    if t == '+e': return f'a + a[k:k] (k={_EMPTYN[op[1]]})'
+    if t == 'e+': return f'a[k:k] + a (k={_EMPTYN[op[1]]})'
+    if t == '+~': return 'a + ~a'
+    if t == '~+': return '~a + a'
+    if t in BADTAB: return f'a + {BADTAB[t][op[1]][0]}' if t.endswith('d+') or t == 'free+' else f'{BADTAB[t][op[1]][0]} + a'
     return repr(op)
 
 
-OPK = {'~': 'invert', '[]': 'getitem', '+': 'add', 'r+': 'radd', '++': 'add'}
+OPK = {'~': 'invert', '[]': 'getitem', '+': 'add', 'r+': 'radd', '++': 'add', 'split': 'add', '+e': 'add', 'e+': 'add',
+       '+~': 'add', '~+': 'add'}
 
 
 def build_leaf(code, form):
@@ -284,6 +425,12 @@ def expr(leaf_code, leaf_form, path):
             s = f'({s} + {s})'
         elif t == '[]':
             s = f'{s}{SLICES[op[1]][0]}'
+        elif t == 'split':
+            s = f'({s}[:k] + {s}[k:] | k={_SPLITN[op[1]]})'
+        elif t in ('+e', 'e+'):
+            s = f'({s} + {s}[k:k] | k={_EMPTYN[op[1]]})' if t == '+e' else f'({s}[k:k] + {s} | k={_EMPTYN[op[1]]})'
+        elif t in ('+~', '~+'):
+            s = f'({s} + ~{s})' if t == '+~' else f'(~{s} + {s})'
         else:
             w = f"<{op[2]} {''.join(map(str, bits_of(op[1])))!r}>"
             s = f'({s} + {w})' if t == '+' else f'({w} + {s})'
@@ -343,33 +490,59 @@ def expand(case):
     nd_broken = False           # after the first `radd:ndarray-left` failure of this case the remaining ndarray-left ops
                                 # are skipped (counted): numpy's failing coercion costs ~0.3 ms per element and op
     ops = ops_for(mode)
+    after_all = n <= AFTER_ALL_MAXLEN
+    on0, ze0 = sum(bits), n - sum(bits)
+
+    def requery(op, what):
+        """cached-attribute class: len/ones/zeros of the SAME operand object asked again after an op was executed on it"""
+        stats['requery-after-op'] = stats.get('requery-after-op', 0) + 1
+        try:
+            ok = len(a) == n and a.len() == n and a.ones() == on0 and a.zeros() == ze0
+        except Exception as e:  # noqa
+            V('law:ones-zeros-len', f'{what}: len/ones/zeros of the operand raised {type(e).__name__} after the op')
+            return
+        if not ok:
+            V(f'stale:{OPK.get(op[0], "add")}:operand-queries', f'{what}: after the op the operand answers len()={len(a)} '
+              f'ones()={a.ones()} zeros()={a.zeros()}, model {n}/{on0}/{ze0}')
     for oi, op in enumerate(ops):
         t = op[0]
         what = Lazy(lambda op=op: f'{here} :: {op_name(op)}')
-        # ---------------------------------------------------------------- operands that must be refused
-        if t in ('bad+', 'badr+'):
-            label, mk = INVALID_OPERANDS[op[1]]
+        last_of_group = oi == len(ops) - 1 or oi % REQUERY_STRIDE == REQUERY_STRIDE - 1
+        # ---------------------------------------------------------------- operands that must be refused / are free
+        if t in BADTAB:
+            label, mk = BADTAB[t][op[1]]
             w = mk()
-            ndleft = t == 'badr+' and isinstance(w, np.ndarray)
+            left = t.endswith('r+')
+            free = t.startswith('free')
+            ndleft = left and isinstance(w, np.ndarray)
             if ndleft and nd_broken:
                 stats['skipped.ndarray-left-after-failure'] = stats.get('skipped.ndarray-left-after-failure', 0) + 1
                 continue
             try:
-                r = (a + w) if t == 'bad+' else (w + a)
+                r = (w + a) if left else (a + w)
             except (ValueError, TypeError) as e:
                 obs.append('R')
             except Exception as e:  # noqa
-                V(f'invalid-operand:wrong-exception:{type(e).__name__}', f'{what}: raised {type(e).__name__}: {e}')
+                V(f'{"free" if free else "invalid"}-operand:wrong-exception:{type(e).__name__}', f'{what}: raised {type(e).__name__}: {e}')
                 obs.append('X')
             else:
-                V('radd:ndarray-left' if ndleft else 'invalid-operand:accepted',
-                  f'{what}: no exception, returned {show(r)}')
-                nd_broken = nd_broken or ndleft
-                obs.append('A')
+                if free:
+                    # statement silent: a returned sequence must at least be a valid one
+                    bad = invalid(r) if isinstance(r, B) else None
+                    if bad:
+                        V(f'closure:{"radd" if left else "add"}:{bad}', f'{what}: result {show(r)}')
+                    obs.append(('F', bits_in(r) if isinstance(r, B) and not bad else type(r).__name__))
+                else:
+                    V('radd:ndarray-left' if ndleft else 'invalid-operand:accepted',
+                      f'{what}: no exception, returned {show(r)}')
+                    nd_broken = nd_broken or ndleft
+                    obs.append('A')
             if not a_same():
                 V('operand-changed:invalid-operand', f'{what}: left operand modified')
                 a, bits = replay(leaf_code, leaf_form, path); a_snap = freeze(a); a_id_data = a.data
-            stats['ops.invalid-operand'] = stats.get('ops.invalid-operand', 0) + 1
+            elif after_all or last_of_group:
+                requery(('+',), what)
+            stats['ops.free-operand' if free else 'ops.invalid-operand'] = stats.get('ops.free-operand' if free else 'ops.invalid-operand', 0) + 1
             continue
         # ---------------------------------------------------------------- valid ops
         opk = OPK[t]
@@ -447,12 +620,26 @@ def expand(case):
                         V('law:double-invert', f'{what}: ~~a = {show(rr)} != a')
                     if not (r.ones() == a.zeros()):
                         V('law:ones-invert', f'{what}: ones(~a)={r.ones()} zeros(a)={a.zeros()}')
+                elif t in ('split', '+e', 'e+'):
+                    if len(r) != len(a):
+                        V('law:len-add', f'{what}: len {len(r)} != {len(a)} + 0')
+                    if (r == a) is not True:
+                        V('law:prefix', f'{what}: result == a is not True; result={bits_in(r)}')
+                elif t in ('+~', '~+'):
+                    if len(r) != 2 * len(a):
+                        V('law:len-add', f'{what}: len {len(r)} != 2 * {len(a)}')
+                    if ((r[:len(a)] if t == '+~' else r[len(a):]) == a) is not True:
+                        V('law:prefix', f'{what}: the half that is a does not compare equal to a; result={bits_in(r)}')
+                    if not (r.ones() == len(a) and r.zeros() == len(a)):
+                        V('law:ones-invert', f'{what}: ones()={r.ones()} zeros()={r.zeros()}, both must be len(a)={len(a)}')
             except Exception as e:  # noqa
                 V(f'law:raises:{opk}', f'{what}: checking the law raised {type(e).__name__}: {str(e)[:160]}')
         # operands unchanged
         if not a_same():
             V(f'operand-changed:{opk}:self', f'{what}: operand modified')
             a, bits = replay(leaf_code, leaf_form, path); a_snap = freeze(a); a_id_data = a.data
+        elif after_all or last_of_group:
+            requery(op, what)
         if other is not None and not same(other, osnap):
             V(f'operand-changed:{opk}:other', f'{what}: the other operand was modified')
             _W.pop((op[1], op[2]), None)
@@ -464,9 +651,15 @@ def expand(case):
 
 
 # ------------------------------------------------------------------ leaves: every word in every container form
+UNARY = [('~',)] + [('[]', k) for k in range(len(SLICES))]
+UNARY_EXT = [('~',), ('[]', 5), ('[]', 1)]      # extended forms: ~a, a[::-1], a[-1] (the object is the same canonical one)
+
+
 def leaf_case(case):
-    """case = word code (length <= 12). Construct it in every accepted form, check validity / model / independence of
-    the input buffer, and run the unary ops + laws from every form."""
+    """case = word code (length <= 12). Construct it in every accepted form (base + extended), check validity / model /
+    independence of the input buffer, and run the unary ops + laws from every form.  len/ones/zeros are asked BEFORE the
+    ops and again AFTER every op on the same object; for one form per word (round-robin) the ops are additionally
+    executed on objects that were NEVER queried before (one fresh object per op), and queried afterwards."""
     code = case
     B = lib()[0]
     bits = bits_of(code)
@@ -478,7 +671,43 @@ def leaf_case(case):
             seenk[key] = 1
             viol.append((key, msg))
     keys = set()
-    for form in forms_for(n, leaf=True):
+    forms = forms_for(n, leaf=True, ext=True)
+    cold_form = forms[code % len(forms)]
+
+    def unary(a, op, what, warm):
+        """one unary op on `a`; returns False if the operand was modified"""
+        snap_a = freeze(a)
+        try:
+            exp = model_apply(bits, op)
+        except IndexError:
+            exp = None
+        try:
+            r = real_apply(a, op)
+        except Exception as e:  # noqa
+            if not (exp is None and isinstance(e, IndexError)):
+                V(f'raises:{OPK[op[0]]}:{type(e).__name__}', f'{what} :: {op_name(op)}: raised {type(e).__name__}: {e}')
+            return True
+        stats['leaf-unary-ops'] = stats.get('leaf-unary-ops', 0) + 1
+        bad = invalid(r)
+        if bad:
+            V(f'closure:{OPK[op[0]]}:{bad}', f'{what} :: {op_name(op)}: {show(r)}')
+            return True
+        if exp is not None and bits_in(r) != exp:
+            V(f'model:{OPK[op[0]]}', f'{what} :: {op_name(op)}: got {bits_in(r)}, model {exp}')
+        if r is a or np.shares_memory(r.data, a.data):
+            V(f'alias:{OPK[op[0]]}:shared-memory', f'{what} :: {op_name(op)}: shares memory with the operand')
+        if not warm and exp is not None:
+            state_laws(r, exp, V, f'{what} :: {op_name(op)} (operand never queried before)')
+            if op[0] == '~' and not (r.ones() == a.zeros()):
+                V('law:ones-invert', f'{what} :: ~a on a never-queried operand: ones(~a)={r.ones()} zeros(a)={a.zeros()}')
+        if not unchanged(a, snap_a):
+            V(f'operand-changed:{OPK[op[0]]}:self', f'{what} :: {op_name(op)}: operand modified')
+            return False
+        # the same object asked again after the op
+        state_laws(a, bits, V, f'{what} after {op_name(op)}')
+        return True
+
+    for form in forms:
         src = make(bits, form)
         ssnap = snap(src)
         what = f'binary_sequence(<{form}> {src!r})'
@@ -502,39 +731,93 @@ def leaf_case(case):
             V('alias:construct:shared-memory', f'{what}: data shares memory with the input array')
         keys.add(key_of(a.data))
         obs.append((form, bits_in(a), a.data.flags.c_contiguous, a.data.flags.owndata))
+        if form == cold_form:
+            for op in UNARY:
+                stats['leaf-cold-ops'] = stats.get('leaf-cold-ops', 0) + 1
+                unary(B(make(bits, form)), op, what, warm=False)
         state_laws(a, bits, V, what)
         # unary ops from this very object
-        snap_a = freeze(a)
-        for op in [('~',)] + [('[]', k) for k in range(len(SLICES))]:
-            try:
-                exp = model_apply(bits, op)
-            except IndexError:
-                exp = None
-            try:
-                r = real_apply(a, op)
-            except Exception as e:  # noqa
-                if not (exp is None and isinstance(e, IndexError)):
-                    V(f'raises:{OPK[op[0]]}:{type(e).__name__}', f'{what} :: {op_name(op)}: raised {type(e).__name__}: {e}')
-                continue
-            stats['leaf-unary-ops'] = stats.get('leaf-unary-ops', 0) + 1
-            bad = invalid(r)
-            if bad:
-                V(f'closure:{OPK[op[0]]}:{bad}', f'{what} :: {op_name(op)}: {show(r)}')
-                continue
-            if exp is not None and bits_in(r) != exp:
-                V(f'model:{OPK[op[0]]}', f'{what} :: {op_name(op)}: got {bits_in(r)}, model {exp}')
-            if r is a or np.shares_memory(r.data, a.data):
-                V(f'alias:{OPK[op[0]]}:shared-memory', f'{what} :: {op_name(op)}: shares memory with the operand')
-            if not unchanged(a, snap_a):
-                V(f'operand-changed:{OPK[op[0]]}:self', f'{what} :: {op_name(op)}: operand modified')
+        for op in (UNARY_EXT if is_ext(form) else UNARY):
+            if not unary(a, op, what, warm=True):
                 break
     stats['leaf.layout-variants'] = max(0, len(keys) - 1)
     return res(viol=viol, obs=tuple(obs), nontrivial=(code if n >= 2 and 0 < sum(bits) < n else False), stats=stats,
                payload=sorted(keys))
 
 
+def cold_case(case):
+    """case = (code, form): EVERY op of the op set 'deep' executed on a FRESH object that was never asked for
+    len/ones/zeros (one new object per op); the result is checked against the model, then the operand is queried for
+    the first time.  (In `expand` the operand has always been queried before the ops.)"""
+    code, form = case
+    bits = bits_of(code)
+    n = len(bits)
+    viol, seenk, stats, obs = [], {}, {}, []
+
+    def V(key, msg):
+        if key not in seenk:
+            seenk[key] = 1
+            viol.append((key, msg))
+    for op in ops_for('deep'):
+        a = build_leaf(code, form)
+        sa = freeze(a)
+        what = Lazy(lambda op=op: f'{expr(code, form, ())} (never queried) :: {op_name(op)}')
+        try:
+            exp = model_apply(bits, op)
+        except IndexError:
+            exp = None
+        try:
+            r = real_apply(a, op)
+        except Exception as e:  # noqa
+            if not (exp is None and isinstance(e, IndexError)):
+                V(f'raises:{OPK[op[0]]}:{type(e).__name__}', f'{what}: raised {type(e).__name__}: {str(e)[:160]}')
+            obs.append(type(e).__name__)
+            continue
+        stats['cold-ops'] = stats.get('cold-ops', 0) + 1
+        bad = invalid(r)
+        if bad:
+            V(f'closure:{OPK[op[0]]}:{bad}', f'{what}: result {show(r)}')
+            obs.append(bad)
+            continue
+        obs.append(bits_in(r))
+        if exp is not None:
+            if bits_in(r) != exp:
+                V(f'model:{OPK[op[0]]}', f'{what}: got {bits_in(r)}, model {exp}')
+            state_laws(r, exp, V, what)
+        if op[0] == '~' and not (r.ones() == a.zeros()):
+            V('law:ones-invert', f'{what}: ones(~a)={r.ones()} zeros(a)={a.zeros()}')
+        if not unchanged(a, sa):
+            V(f'operand-changed:{OPK[op[0]]}:self', f'{what}: operand modified')
+        state_laws(a, bits, V, f'{what} (operand, first query after the op)')
+    return res(viol=viol, obs=(code, form, tuple(obs)), nontrivial=(code if n >= 2 and 0 < sum(bits) < n else False), stats=stats)
+
+
 # ------------------------------------------------------------------ invalid constructions
-def invalid_constructions():
+LAZY = {
+    'object()': lambda: object(), 'lambda': lambda: (lambda: 0), 'generator': lambda: (i for i in (0, 1)), 'iter([0,1])': lambda: iter([0, 1]),
+    'memoryview': lambda: memoryview(bytes([0, 1])), 'binary_sequence(01)': lambda: lib()[0]('01'),
+    '[binary_sequence(1)]': lambda: [lib()[0]('1')], 'electrical_signal([0,1])': lambda: lib()[1]([0, 1]),
+    'deque([0,1])': lambda: __import__('collections').deque([0, 1]), "array('B',[0,1])": lambda: __import__('array').array('B', [0, 1]),
+    '[nd[0,1]]': lambda: [np.array([0, 1])], '[nd[0,1],nd[1]]': lambda: [np.array([0, 1]), np.array([1])],
+    '[0d(1),0d(0)]': lambda: [np.array(1), np.array(0)], '[nd[1]]': lambda: [np.array([1])], 'np.str_(01)': lambda: np.str_('01'),
+    'Ellipsis': lambda: Ellipsis, 'NotImplemented': lambda: NotImplemented, 'int': lambda: int,
+}
+
+
+def build_input(spec):
+    """inputs are described by plain picklable specs; the object is built inside the case"""
+    tag = spec[0]
+    if tag == 'raw': return spec[1]
+    if tag == 'arr': return np.array(spec[1], dtype=spec[2])
+    if tag == 'npsc': return np.dtype(spec[1]).type(spec[2])
+    if tag == '0d': return np.array(spec[2], dtype=spec[1])
+    if tag == 'zeros': return np.zeros(spec[1], dtype=spec[2])
+    if tag == 'lazy': return LAZY[spec[1]]()
+    raise KeyError(spec)
+
+
+def _legacy_invalid():
+    """the table + generated part of the first version of this check"""
     out = [("'012'", '012'), ('[0,2]', [0, 2]), ('[[0,1],[1,0]]', [[0, 1], [1, 0]]), ('[[0,1]]', [[0, 1]]),
            ("'1 0; 0 1'", '1 0; 0 1'), ('1.5', 1.5), ('[0.5]', [0.5]), ("'abc'", 'abc'), ('None', None), ('-1', -1),
            ('2', 2), ('[None]', [None]), ("'0.5'", '0.5'), ("'-1'", '-1'), ('[-1]', [-1]), ('nan', float('nan')),
@@ -563,23 +846,252 @@ def invalid_constructions():
             s = ' '.join(map(str, w))
             out += [(f'[[{s}]]2d', [list(w)]), (f'[[w],[w]]{w}', [list(w), list(w)]), (f"'{s}; {s}'", f'{s}; {s}'),
                     (f'nd2d{w}', ('nd', [list(w), list(w)]))]
+    conv = []
+    for label, x in out:
+        if isinstance(x, tuple) and len(x) == 2 and x[0] in ('nd', 'nd8'):
+            conv.append((label, ('arr', x[1], 'uint8' if x[0] == 'nd8' else None), 'bad', None))
+        else:
+            conv.append((label, ('raw', x), 'bad', None))
+    return conv
+
+
+BAD_VALUES = [2, 3, -1, 255, 256, 257, -255, -256, 65536, 2 ** 32, 2 ** 64, 0.5, 0.25, 1e-9, 5e-324, 1 - 2 ** -53, 1 + 2 ** -52,
+              1.0000001, 0.9999999, -0.5, -5e-324, -1.0, 2.0, 1e300, float('nan'), float('inf'), float('-inf'),
+              1j, 0.5 + 0j, 1 + 1e-9j, 1 + 1j, -1 + 0j, complex(0, float('nan')), complex(float('nan'), 0)]
+BAD_TOKENS = ['2', '3', '-1', '0.5', '.5', '1.5', '0.25', '1e0', 'nan', 'inf', '1j', '0.5+0j', '1+1j', 'a', 'x', 'True', '0x1', '0b1',
+              '0_1', '\uff10', '\u00b2', '1/1', '[1]', "'1'", '1;']
+FLOAT_DT = ['float16', 'float32', 'float64', 'complex64', 'complex128']
+INT_DT = ['int8', 'int16', 'int32', 'int64', 'uint8', 'uint16', 'uint32', 'uint64']
+
+
+def invalid_constructions():
+    """(label, spec, kind, expected): kind 'bad' = must raise ValueError/TypeError; kind 'free' = statement silent: either
+    ValueError/TypeError or a valid sequence (equal to `expected` where the reading is unambiguous)"""
+    out = _legacy_invalid()
+    seen = {c[0] for c in out}
+
+    def add(label, spec, kind='bad', exp=None):
+        if label not in seen:
+            seen.add(label)
+            out.append((label, spec, kind, exp))
+    # -- one non-binary value in every container context (alone; before / after / between valid elements)
+    for v in BAD_VALUES:
+        r = repr(v)
+        add(f'scalar {r}', ('raw', v))
+        add(f'0d {r}', ('0d', None, v))
+        for ctx_label, mk in (('[v]', lambda v: [v]), ('(v,)', lambda v: (v,)), ('[v,0]', lambda v: [v, 0]), ('[1,v]', lambda v: [1, v]),
+                              ('[0,v,1]', lambda v: [0, v, 1]), ('(1,0,v)', lambda v: (1, 0, v)), ('[True,v]', lambda v: [True, v])):
+            add(f'{ctx_label} v={r}', ('raw', mk(v)))
+        for ctx_label, mk in (('nd[v]', lambda v: [v]), ('nd[0,v]', lambda v: [0, v]), ('nd[v,1,0]', lambda v: [v, 1, 0])):
+            add(f'{ctx_label} v={r}', ('arr', mk(v), None))
+    # -- the same in every floating / complex / integer dtype: boundary values of that dtype
+    for dt in FLOAT_DT:
+        fi = np.finfo(dt)
+        tiny, below1, above1 = float(fi.smallest_subnormal), float(1 - fi.epsneg), float(1 + fi.eps)
+        vals = [0.5, tiny, below1, above1, -tiny, 2.0, float('nan'), float('inf')]
+        if dt.startswith('complex'):
+            vals += [1j, complex(1, tiny), complex(0, tiny), 0.5 + 0.5j]
+        for v in vals:
+            add(f'nd_{dt}[{v!r}]', ('arr', [v], dt)); add(f'nd_{dt}[0,{v!r},1]', ('arr', [0, v, 1], dt))
+            add(f'0d_{dt}({v!r})', ('0d', dt, v)); add(f'np.{dt}({v!r})', ('npsc', dt, v))
+    for dt in INT_DT:
+        ii = np.iinfo(dt)
+        vals = [2, int(ii.max)] + ([-1, int(ii.min)] if ii.min < 0 else []) + [x for x in (255, 256, 257, 65536) if x <= ii.max]
+        for v in vals:
+            add(f'nd_{dt}[{v}]', ('arr', [v], dt)); add(f'nd_{dt}[0,{v},1]', ('arr', [0, v, 1], dt))
+            add(f'0d_{dt}({v})', ('0d', dt, v)); add(f'np.{dt}({v})', ('npsc', dt, v))
+    add('nd_obj[2]', ('arr', [2], 'object')); add('nd_obj[None]', ('arr', [None], 'object')); add('nd_obj[0,0.5]', ('arr', [0, 0.5], 'object'))
+    # -- strings: an invalid token alone and next to valid ones, with every separator
+    for t in BAD_TOKENS:
+        for ctx_label, st in (('t', t), ('0 t', '0 ' + t), ('t 1', t + ' 1'), ('0,t', '0,' + t), ('0, t, 1', '0, ' + t + ', 1'), ('01t', '01' + t),
+                              ('t01', t + '01')):
+            add(f'str {ctx_label} t={t!r}', ('raw', st))
+    for st in ('0;1', '01;10', '0 1;1 0', '0,1;1,0', '0, 1; 1, 0', '1;', ';1', ';', ';;', '0;1;0', '01;1', '1;01', '0 1;', ' ; ', '0;', '1 ;0'):
+        add(f'str2d {st!r}', ('raw', st))
+    # -- containers that are not 1-D: every small shape as ndarray (4 dtypes, zeros and ones) and as nested list / tuple
+    for shape in ((1, 1), (1, 2), (2, 1), (2, 2), (1, 0), (0, 1), (0, 2), (2, 0), (0, 0), (1, 1, 1), (2, 2, 2), (1, 0, 1), (1, 2, 1), (3, 3)):
+        for dt in ('bool', 'uint8', 'int64', 'float64'):
+            add(f'zeros{shape}:{dt}', ('zeros', shape, dt))
+        if shape[0] > 0:            # (a leading 0 gives the plain empty list, which is 1-D)
+            add(f'ones{shape}', ('raw', np.ones(shape, dtype=int).tolist()))
+            add(f'zeros{shape}.tolist', ('raw', np.zeros(shape, dtype=int).tolist()))
+            add(f'tuple-nest{shape}', ('raw', tuple(map(tuple, np.ones(shape[:2], dtype=int).tolist())) if len(shape) == 2 else ((0,),)))
+    add('eye3:bool', ('raw', np.eye(3, dtype=bool).tolist()))
+    for label, x in (('[[0,1],[1]]', [[0, 1], [1]]), ('[[0],[1,0]]', [[0], [1, 0]]), ('[0,[1]]', [0, [1]]), ('[[0],1]', [[0], 1]),
+                     ('([0],[1,0])', ([0], [1, 0])), ('[[0],[]]', [[0], []]), ('[[],[0]]', [[], [0]]), ('[[[0],[1]],[[0]]]', [[[0], [1]], [[0]]]),
+                     ('[(0,1),[1]]', [(0, 1), [1]]), ('((0,1),(1,0))', ((0, 1), (1, 0))), ('[(0,1)]', [(0, 1)]), ('([0,1],)', ([0, 1],)),
+                     ('[[0],[1]]', [[0], [1]]), ('[[True],[False]]', [[True], [False]]), ('[[1.0]]', [[1.0]]), ('[[],[]]', [[], []]),
+                     ('([],)', ([],)), ('[()]', [()]), ("['01','10']", ['01', '10']), ("[[0,1],'01']", [[0, 1], '01'])):
+        add(label, ('raw', x))
+    add('[nd[0,1]]', ('lazy', '[nd[0,1]]')); add('[nd[0,1],nd[1]]', ('lazy', '[nd[0,1],nd[1]]')); add('[nd[1]]', ('lazy', '[nd[1]]'))
+    # -- things that are not data at all
+    for label, x in (('[None,1]', [None, 1]), ('[[None]]', [[None]]), ("['a',1]", ['a', 1]), ("['']", ['']), ('[[],1]', [[], 1]),
+                     ('{}', {}), ("{'a':1}", {'a': 1})):
+        add(label, ('raw', x))
+    for name in ('object()', 'lambda', 'Ellipsis', 'NotImplemented', 'int'):
+        add(name, ('lazy', name))
+    # -- statement silent (kind 'free')
+    for st, exp in (('', ()), (' ', ()), ('  ', ()), (',', ()), (', ', ()), ('0\t1', (0, 1)), ('0\n1', (0, 1)), ('01\n', (0, 1)), ('\t', ()),
+                    ('0\r\n1', (0, 1)), ('0\x0b1', (0, 1)), ('0\xa01', (0, 1)), ('0\u20031', (0, 1)), (' 01 ', (0, 1)), (',01,', (0, 1)),
+                    ('0,,1', (0, 1)), ('0  1', (0, 1)), ('0 , 1', (0, 1)), ('0 ,1', (0, 1)), ('01,', (0, 1)), (',01', (0, 1)),
+                    ('0.0 1.0', (0, 1)), ('1.0', (1,)), ('0.0', (0,)), ('1.', (1,)), ('+1', (1,)), ('-0', (0,)), ('+0', (0,)), ('-0.0', (0,)),
+                    ('1+0j', (1,)), ('0j', (0,)), ('1+0i', (1,)), ('1 1.0', (1, 1)), ('0 1 +1', (0, 1, 1)), ('00', (0, 0)),
+                    ('1.0,0.0,1.0', (1, 0, 1))):
+        add(f'free str {st!r}', ('raw', st), 'free', exp)
+    for label, x, exp in (('range(0)', range(0), ()), ('range(2)', range(2), (0, 1)), ('bytearray([0,1])', bytearray([0, 1]), (0, 1)),
+                          ('bytearray()', bytearray(), ()), ("b''", b'', None), ("b'\\x00\\x01'", b'\x00\x01', None), ("b'01'", b'01', None),
+                          ("['0','1']", ['0', '1'], (0, 1)), ("['01']", ['01'], None), ("[b'1']", [b'1'], None), ('{0,1}', {0, 1}, None),
+                          ('{1}', {1}, None), ('frozenset({0})', frozenset([0]), None), ('{0:1}', {0: 1}, None), ('{0:0,1:0}', {0: 0, 1: 0}, None)):
+        add(f'free {label}', ('raw', x), 'free', exp)
+    add("free nd['0','1']", ('arr', ['0', '1'], None), 'free', (0, 1))
+    for name, exp in (('generator', None), ('iter([0,1])', None), ('memoryview', (0, 1)), ('binary_sequence(01)', (0, 1)),
+                      ('[binary_sequence(1)]', None), ('electrical_signal([0,1])', (0, 1)), ('deque([0,1])', (0, 1)),
+                      ("array('B',[0,1])", (0, 1)), ('[0d(1),0d(0)]', (1, 0)), ('np.str_(01)', (0, 1))):
+        add(f'free {name}', ('lazy', name), 'free', exp)
     return out
 
 
 def invalid_construction_case(case):
-    label, x = case
+    label, spec, kind, exp = case
     B = lib()[0]
-    if isinstance(x, tuple) and len(x) == 2 and x[0] in ('nd', 'nd8'):
-        x = np.array(x[1], dtype=np.uint8 if x[0] == 'nd8' else None)
+    x = build_input(spec)
     try:
         r = B(x)
     except (ValueError, TypeError) as e:
         return res(obs=(label, type(e).__name__), nontrivial=label)
     except Exception as e:  # noqa
-        return res(viol=[(f'invalid-construction:wrong-exception:{type(e).__name__}', f'binary_sequence({label}) raised {type(e).__name__}: {e}')],
-                   obs=(label, type(e).__name__))
+        return res(viol=[(f'{"free" if kind == "free" else "invalid"}-construction:wrong-exception:{type(e).__name__}',
+                          f'binary_sequence({label}) raised {type(e).__name__}: {e}')], obs=(label, type(e).__name__))
+    if kind == 'free':
+        bad = invalid(r)
+        if bad:
+            return res(viol=[(f'closure:construct:{bad}', f'binary_sequence({label}) returned an invalid object: data={getattr(r, "data", None)!r}')],
+                       obs=(label, bad))
+        if exp is not None and bits_in(r) != tuple(exp):
+            return res(viol=[('model:construct', f'binary_sequence({label}) accepted the input but stored {bits_in(r)}, its elements are {tuple(exp)}')],
+                       obs=(label, bits_in(r)))
+        return res(obs=(label, 'accepted', bits_in(r)), nontrivial=label, stats={'free-constructions.accepted': 1})
     return res(viol=[('invalid-construction:accepted', f'binary_sequence({label}) did not raise; data={getattr(r, "data", None)!r}')],
                obs=(label, 'accepted'))
+
+
+# ------------------------------------------------------------------ indexing: every integer index, every slice
+INT_KINDS = [('int', int, False), ('np.int64', np.int64, False), ('np.intp', np.intp, False), ('np.int8', np.int8, False),
+             ('np.int32', np.int32, False), ('np.uint8', np.uint8, True), ('np.uint64', np.uint64, True),
+             ('0d-int64', lambda i: np.array(i, dtype=np.int64), False)]
+
+
+def index_case(case):
+    """case = word code. From ONE write-protected object: every integer index -n-2 .. n+1 in 8 integer kinds (python int,
+    numpy signed/unsigned scalars, 0-d array); every slice start:stop:step with start, stop in {None, -n-1 .. n+1} and
+    step in {None, 1, 2, 3, -1, -2, -3, n+1, -n-1} as python ints, the step-None ones also with np.int64 bounds, and the
+    bounds returned by ones() (a numpy scalar); further index kinds (Ellipsis, 1-tuples, integer lists/arrays, boolean
+    masks, None, bool, float, str) with the closure oracle only.  Model: the python tuple indexed the same way."""
+    code = case
+    B = lib()[0]
+    bits = bits_of(code)
+    n = len(bits)
+    viol, seenk, stats, obs = [], {}, {}, []
+
+    def V(key, msg):
+        if key not in seenk:
+            seenk[key] = 1
+            viol.append((key, msg))
+    a = B(list(bits))
+    sa = freeze(a)
+    here = f'a = binary_sequence({list(bits)})'
+
+    def check(r, exp, what):
+        bad = invalid(r)
+        if bad:
+            V(f'closure:getitem:{bad}', f'{here} :: {what}: result {show(r)}')
+            return
+        if exp is not None and bits_in(r) != exp:
+            V('model:getitem', f'{here} :: {what}: got {bits_in(r)}, model {exp}')
+        if r is a or np.shares_memory(r.data, a.data):
+            V('alias:getitem:shared-memory', f'{here} :: {what}: result shares memory with the operand')
+        if exp is not None:
+            state_laws(r, exp, V, f'{here} :: {what}')
+    # ---- integer indices
+    for i in range(-n - 2, n + 2):
+        for kname, conv, unsigned in INT_KINDS:
+            if unsigned and i < 0:
+                continue
+            idx = conv(i)
+            what = f'a[{kname}({i})]'
+            inrange = -n <= i < n
+            try:
+                r = a[idx]
+            except Exception as e:  # noqa
+                if inrange:
+                    V(f'raises:getitem:{type(e).__name__}', f'{here} :: {what}: raised {type(e).__name__}: {str(e)[:120]}')
+                obs.append(type(e).__name__)         # out of range: the statement is silent
+                continue
+            stats['index.int'] = stats.get('index.int', 0) + 1
+            if inrange:
+                check(r, (bits[i],), what)
+                obs.append(bits_in(r) if isinstance(r, B) and not invalid(r) else 'INVALID')
+            else:
+                # out of range and no exception: silent, but a returned sequence must be a valid one
+                if isinstance(r, B):
+                    check(r, None, what + ' (out of range)')
+                obs.append(('OOR', type(r).__name__))
+    # ---- slices
+    bounds = [None] + list(range(-n - 1, n + 2))
+    steps = [None, 1, 2, 3, -1, -2, -3, n + 1, -n - 1]
+    for step in steps:
+        for start in bounds:
+            for stop in bounds:
+                for npy in ((False, True) if step is None else (False,)):
+                    sl = slice(start, stop, step)
+                    exp = tuple(bits[sl])
+                    if npy:
+                        sl = slice(None if start is None else np.int64(start), None if stop is None else np.int64(stop))
+                    what = f'a[{start}:{stop}:{step}]' + (' (np.int64 bounds)' if npy else '')
+                    try:
+                        r = a[sl]
+                    except Exception as e:  # noqa
+                        V(f'raises:getitem:{type(e).__name__}', f'{here} :: {what}: raised {type(e).__name__}: {str(e)[:120]}')
+                        continue
+                    stats['index.slice'] = stats.get('index.slice', 0) + 1
+                    check(r, exp, what)
+    # ---- bounds returned by the object's own ones() (a numpy scalar): a returned value fed into the next call
+    try:
+        k = a.ones()
+        for what, sl, exp in (('a[:a.ones()]', slice(None, k), tuple(bits[:sum(bits)])), ('a[a.ones():]', slice(k, None), tuple(bits[sum(bits):]))):
+            try:
+                r = a[sl]
+            except Exception as e:  # noqa
+                V(f'raises:getitem:{type(e).__name__}', f'{here} :: {what}: raised {type(e).__name__}: {str(e)[:120]}')
+                continue
+            stats['index.slice'] = stats.get('index.slice', 0) + 1
+            check(r, exp, what)
+    except Exception as e:  # noqa
+        V('law:ones-zeros-len', f'{here}: ones() raised {type(e).__name__}')
+    # ---- other index kinds: statement silent on their meaning; closure, aliasing and operand immutability only
+    others = [('...', Ellipsis), ('(slice(None),)', (slice(None),)), ('[]', []), ('None', None), ('True', True), ('1.0', 1.0), ("'0'", '0'),
+              ('mask-list', [bool(b) for b in bits]), ('mask-nd', np.array(bits, dtype=bool)), ('int-nd-all', np.arange(n)),
+              ('int-nd-rev', np.arange(n)[::-1].copy()), ('slice(0,0,0)', slice(0, 0, 0))]
+    if n:
+        others += [('(0,)', (0,)), ('[0]', [0]), ('[0,n-1]', [0, n - 1]), ('[-1,0]', [-1, 0]), ('(-1,)', (-1,)), ('nd[0,0]', np.array([0, 0]))]
+    for label, idx in others:
+        isnp = isinstance(idx, np.ndarray)
+        s_idx = freeze(idx) if isnp else None
+        try:
+            r = a[idx]
+        except Exception as e:  # noqa
+            obs.append((label, type(e).__name__))
+            continue
+        stats['index.other'] = stats.get('index.other', 0) + 1
+        if isinstance(r, B):
+            check(r, None, f'a[{label}]')
+            obs.append((label, bits_in(r) if not invalid(r) else 'INVALID'))
+            if isnp and (not unchanged(idx, s_idx) or np.shares_memory(r.data, idx)):
+                V('operand-changed:getitem:index', f'{here} :: a[{label}]: the index array was modified / is shared')
+    if not unchanged(a, sa):
+        V('operand-changed:getitem:self', f'{here}: the operand differs after the indexing sweep')
+    state_laws(a, bits, V, f'{here} after the indexing sweep')
+    return res(viol=viol, obs=(code, tuple(obs)), nontrivial=(code if n >= 2 and 0 < sum(bits) < n else False), stats=stats)
 
 
 # ------------------------------------------------------------------ long words
@@ -611,7 +1123,7 @@ def long_case(case):
     state_laws(a, bits, V, what)
     sa = freeze(a)
     obs = []
-    ops = [('~',)] + [('[]', k) for k in range(len(SLICES))]
+    ops = [('~',)] + [('[]', k) for k in range(len(SLICES))] + [('split', 2), ('split', 3), ('+e', 2), ('e+', 0), ('+~',), ('~+',)]
     for wc in (1, 2, 3, 0b101, 0b110):
         for f in ('str', 'list', 'nd_bool', 'bseq'):
             if wc == 1 and f == 'str':
@@ -648,11 +1160,14 @@ def long_case(case):
                 V('law:double-invert', what)
             if not (r.ones() == a.zeros()):
                 V('law:ones-invert', f'{what}: ones(~a)={r.ones()} zeros(a)={a.zeros()}')
-        if op[0] == '+' and (r[:len(a)] == a) is not True:
+        if op[0] in ('+', '+~') and (r[:len(a)] == a) is not True:
             V('law:prefix', what)
+        if op[0] in ('split', '+e', 'e+') and (r == a) is not True:
+            V('law:prefix', f'{what} :: {op_name(op)}: result == a is not True')
         if not unchanged(a, sa):
             V(f'operand-changed:{OPK[op[0]]}:self', f'{what} :: {op_name(op)}')
             break
+        state_laws(a, bits, V, f'{what} (operand) after {op_name(op)}')
         obs.append((op_name(op), len(exp), sum(exp)))
     # a + a, a + ~a with itself as the other operand
     try:
@@ -673,41 +1188,117 @@ def long_case(case):
 
 
 # ------------------------------------------------------------------ comparison  x > th, x < th
-CMP = {
-    'nonneg':     ((0.0, 0.25, 0.5, 1.0), (-0.25, 0.0, 0.25, 0.5)),
-    'nonneg-int': ((0, 1, 2, 3), (-1, 0, 1)),
-    'signed':     ((-1.0, -0.25, 0.0, 0.5), (-0.5, 0.0, 0.25)),
-    'complex':    ((1j, -0.5 + 0.5j, 0j, 1 + 0j), (0.25j, -0.5 + 0j, 0j)),
-}
 TH_SCALAR = [('int0', 0), ('int1', 1), ('f.25', 0.25), ('f.5', 0.5), ('f.75', 0.75), ('np.25', np.float64(0.25)),
              ('f2', 2.0), ('neg', -0.25)]
 TH_ALPHA = (0.0, 0.25, 0.75)
+_INF = float('inf')
 
 
-def thresholds(n):
-    """(label, builder, kind) ; kind: 'ok' (matched / scalar), 'mismatch' (must raise ValueError), 'free' (statement silent)"""
+def _affine(k, off=0.0):
+    """scale / offset variants of the non-negative class. k and off are powers of two, the alphabets dyadic rationals: every
+    value, every sum S+N and every tie S+N == th stays exact in binary floating point."""
+    f = lambda v: off + v * k
+    return dict(S=tuple(f(v) for v in (0.0, 0.25, 0.5, 1.0)), N=tuple(v * k for v in (-0.25, 0.0, 0.25, 0.5)),
+                sc=[(l, f(v)) for l, v in TH_SCALAR if v >= 0] + [('neg', -0.25 * k)], alpha=tuple(f(v) for v in TH_ALPHA),
+                neg=-0.25 * k, inclass=True, dtyped=False)
+
+
+CMP = {
+    'nonneg':     dict(S=(0.0, 0.25, 0.5, 1.0), N=(-0.25, 0.0, 0.25, 0.5), sc=TH_SCALAR, alpha=TH_ALPHA, neg=-0.25, inclass=True, dtyped=True),
+    'nonneg-int': dict(S=(0, 1, 2, 3), N=(-1, 0, 1), sc=TH_SCALAR, alpha=TH_ALPHA, neg=-0.25, inclass=True, dtyped=True),
+    'signed':     dict(S=(-1.0, -0.25, 0.0, 0.5), N=(-0.5, 0.0, 0.25), sc=TH_SCALAR, alpha=TH_ALPHA, neg=-0.25, inclass=False, dtyped=True),
+    'complex':    dict(S=(1j, -0.5 + 0.5j, 0j, 1 + 0j), N=(0.25j, -0.5 + 0j, 0j), sc=TH_SCALAR, alpha=TH_ALPHA, neg=-0.25, inclass=False, dtyped=True),
+    # hardening pass (scale and offset, extreme-but-legal values)
+    'nonneg-tiny':   _affine(2.0 ** -40),                   # ~1e-12
+    'nonneg-big':    _affine(2.0 ** 20),                    # ~1e6
+    'nonneg-offset': _affine(1.0, off=2.0 ** 20),           # large DC offset, small variation
+    'nonneg-extreme': dict(S=(0.0, -0.0, 5e-324, 2.0 ** 1000, _INF), N=(0.0, 5e-324),
+                           sc=[('0', 0.0), ('-0.0', -0.0), ('tiny', 5e-324), ('2tiny', 1e-323), ('one', 1.0), ('2^1000', 2.0 ** 1000),
+                               ('inf', _INF), ('neg', -5e-324)],
+                           alpha=(0.0, 5e-324, _INF), neg=-5e-324, inclass=True, dtyped=False),
+}
+# signal container / dtype axis (hardening pass); 'list' is the form of the main part
+SIG_FORMS = {
+    'nonneg': ['tuple', 'nd:float16', 'nd:float32', 'nd:float64', 'nd:complex128', 'str', 'scalar', 'npscalar:float32', 'list:dtype=float32',
+               'slice', 'index', 'nd:float32|noise:float64', 'nd:float64|noise:float32', 'nd:float16|noise:float32'],
+    'nonneg-int': ['tuple', 'nd:int8', 'nd:uint8', 'nd:int16', 'nd:int32', 'nd:int64', 'nd:uint16', 'nd:uint32', 'nd:uint64', 'nd:float32',
+                   'nd:float16', 'nd:bool', 'str', 'scalar', 'npscalar:int64', 'npscalar:uint8', 'list:dtype=int32', 'slice', 'index',
+                   'nd:uint8|noise:float64', 'nd:int32|noise:int8', 'nd:int64|noise:float32', 'nd:uint8|noise:int8', 'nd:float32|noise:int16'],
+}
+
+
+def thresholds(n, cls='nonneg'):
+    """(label, builder, kind, ref); kind: 'ok' (matched length / scalar: the equality clause applies where everything is
+    non-negative and real), 'okfree' (boolean thresholds: may be refused with ValueError/TypeError, otherwise as 'ok'), 'mismatch' (length differs: ValueError, or a valid result of the signal's length),
+    'mismatch-any' (empty threshold: ValueError/TypeError or a valid result of the signal's length), 'free' (statement silent:
+    any exception, or a valid result of the signal's length)"""
     E = lib()[1]
-    out = [(f'scalar:{l}', (lambda v=v: v), 'ok', np.asarray(v)) for l, v in TH_SCALAR]
-    arrs = list(itertools.product(TH_ALPHA, repeat=n)) + [tuple([-0.25] + [0.25] * (n - 1))]
+    C = CMP[cls]
+    alpha, neg = C['alpha'], C['neg']
+    pos = alpha[1]
+    out = [(f'scalar:{l}', (lambda v=v: v), 'ok', np.asarray(v)) for l, v in C['sc']]
+    arrs = list(itertools.product(alpha, repeat=n)) + [tuple([neg] + [pos] * (n - 1))]
     for w in arrs:
         ref = np.array(w, dtype=float)
         out.append((f'list{w}', (lambda w=w: list(w)), 'ok', ref))
         out.append((f'tuple{w}', (lambda w=w: tuple(w)), 'ok', ref))
         out.append((f'nd{w}', (lambda w=w: np.array(w, dtype=float)), 'ok', ref))
         out.append((f'E{w}', (lambda w=w: E(list(w))), 'ok', ref))
-    w = tuple([1.0] * n)
-    out.append((f'Enoisy{w}', (lambda w=w: E(list(w), [0.5] * n)), 'free', None))
+    w = tuple([alpha[2] if alpha[2] != _INF else 1.0] * n)
+    out.append((f'Enoisy{w}', (lambda w=w: E(list(w), [pos] * n)), 'free', None))
     out.append(('ndcomplex', (lambda: np.array([0.5j] * n)), 'free', None))
     if n >= 1:
         out.append(('nd-int', (lambda: np.array([1] * n)), 'ok', np.array([1] * n)))
-    for m in sorted({n + 1, n + 2, 2 if n >= 3 else n + 3}):
+    ms = {n + 1, n + 2, 2 if n >= 3 else n + 3, 2 * n if n >= 2 else n + 1, n - 1 if n >= 3 else n + 1}
+    for m in sorted(ms):
         if m == n or m == 1:
             continue
-        for f, mk in (('list', lambda m=m: [0.25] * m), ('nd', lambda m=m: np.full(m, 0.25)), ('E', lambda m=m: E([0.25] * m))):
+        for f, mk in (('list', lambda m=m: [pos] * m), ('nd', lambda m=m: np.full(m, pos)), ('E', lambda m=m: E([pos] * m)),
+                      ('tuple', lambda m=m: (pos,) * m), ('list-int', lambda m=m: [1] * m), ('nd_u8', lambda m=m: np.ones(m, dtype=np.uint8)),
+                      ('E-int', lambda m=m: E([1] * m)), ('Enoisy', lambda m=m: E([pos] * m, [pos] * m))):
             out.append((f'mismatch:{f}{m}', mk, 'mismatch', None))
     if n > 1:
-        out.append(('len1-list', (lambda: [0.25]), 'free', None))
-        out.append(('len1-nd', (lambda: np.array([0.25])), 'free', None))
+        out.append(('len1-list', (lambda: [pos]), 'free', None))
+        out.append(('len1-nd', (lambda: np.array([pos])), 'free', None))
+        out.append(('len1-E', (lambda: E([pos])), 'free', None))
+    # empty thresholds, thresholds that are not 1-D, non-numeric thresholds
+    for l, mk in (('[]', lambda: []), ('()', lambda: ()), ('nd-empty', lambda: np.array([]))):
+        out.append((f'empty:{l}', mk, 'mismatch-any', None))
+    for l, mk in (('[[th]*n]', lambda: [[pos] * n]), ('nd(n,1)', lambda: np.full((n, 1), pos)), ('nd(1,n)', lambda: np.full((1, n), pos)),
+                  ('None', lambda: None), ('nan', lambda: float('nan')), ('1+0j', lambda: 1 + 0j), ("'abc'", lambda: 'abc'),
+                  ('binary_sequence', lambda: lib()[0]([1] * n))):
+        out.append((f'free:{l}', mk, 'free', None))
+    if not C['dtyped']:
+        return out
+    # ---- hardening pass: threshold dtypes and scalar kinds (values stay dyadic / small integers: exact in every dtype)
+    for l, v in (('np.int64(1)', np.int64(1)), ('np.uint8(1)', np.uint8(1)), ('np.int8(2)', np.int8(2)), ('np.float32(.25)', np.float32(0.25)),
+                 ('np.float16(.5)', np.float16(0.5)), ('True', True), ('np.bool_(True)', np.bool_(True)), ('-0.0', -0.0), ('inf', _INF),
+                 ('int3', 3), ('f1.5', 1.5), ('f2.5', 2.5)):
+        out.append((f'scalar:{l}', (lambda v=v: v), 'okfree' if isinstance(v, (bool, np.bool_)) else 'ok', np.asarray(v, dtype=float)))
+    out.append(('scalar:0d(.25)', (lambda: np.array(0.25)), 'ok', np.asarray(0.25)))
+    out.append(('scalar:0d(1)', (lambda: np.array(1)), 'ok', np.asarray(1.0)))
+    out.append(('scalar:0d-f32(.75)', (lambda: np.array(0.75, dtype=np.float32)), 'ok', np.asarray(0.75)))
+    fw = [tuple([0.25] * n), tuple((0.0, 0.75)[i % 2] for i in range(n)), tuple((1.5, 0.5, 2.5)[i % 3] for i in range(n))]
+    iw = [tuple([1] * n), tuple((0, 2)[i % 2] for i in range(n)), tuple((3, 1)[i % 2] for i in range(n))]
+    bw = tuple((True, False)[i % 2] for i in range(n))
+    for w in dict.fromkeys(fw):
+        ref = np.array(w, dtype=float)
+        for dt in ('float32', 'float16'):
+            out.append((f'nd_{dt}{w}', (lambda w=w, dt=dt: np.array(w, dtype=dt)), 'ok', ref))
+        out.append((f'list-np.float32{w}', (lambda w=w: [np.float32(v) for v in w]), 'ok', ref))
+        out.append((f'E-dtype=float32{w}', (lambda w=w: E(list(w), dtype=np.float32)), 'ok', ref))
+        out.append((f'nd-strided{w}', (lambda w=w: np.repeat(np.array(w, dtype=float), 2)[::2]), 'ok', ref))
+        out.append((f'str{w}', (lambda w=w: ' '.join(str(v) for v in w)), 'free', None))
+    for w in dict.fromkeys(iw):
+        ref = np.array(w, dtype=float)
+        out.append((f'list-int{w}', (lambda w=w: list(w)), 'ok', ref))
+        out.append((f'tuple-int{w}', (lambda w=w: tuple(w)), 'ok', ref))
+        for dt in ('int8', 'uint8', 'int32', 'int64', 'uint64'):
+            out.append((f'nd_{dt}{w}', (lambda w=w, dt=dt: np.array(w, dtype=dt)), 'ok', ref))
+        out.append((f'E-int{w}', (lambda w=w: E(list(w))), 'ok', ref))
+        out.append((f'list-mixed{w}', (lambda w=w: [(np.int64, float, np.uint8)[i % 3](v) for i, v in enumerate(w)]), 'ok', ref))
+    out.append((f'list-bool{bw}', (lambda: list(bw)), 'okfree', np.array(bw, dtype=float)))
+    out.append((f'nd_bool{bw}', (lambda: np.array(bw)), 'okfree', np.array(bw, dtype=float)))
     return out
 
 
@@ -726,31 +1317,38 @@ def cmp_one(x, S, N, th, kind, ref, in_class, what, V, stats):
                 else:
                     V(f'cmp:mismatch-wrong-exception:{type(e).__name__}', f'{what} {opn}: raised {type(e).__name__}: {e}')
                 continue
-            if kind == 'free':
+            if kind == 'mismatch-any':
+                if isinstance(e, (ValueError, TypeError)):
+                    obs.append(type(e).__name__)
+                else:
+                    V(f'cmp:mismatch-wrong-exception:{type(e).__name__}', f'{what} {opn}: raised {type(e).__name__}: {e}')
+                continue
+            if kind == 'free' or (kind == 'okfree' and isinstance(e, (ValueError, TypeError))):
                 obs.append(type(e).__name__)
                 continue
             V(f'cmp:raises:{type(e).__name__}', f'{what} {opn}: raised {type(e).__name__}: {str(e)[:160]}')
             continue
         stats['cmp.evaluations'] = stats.get('cmp.evaluations', 0) + 1
-        if kind == 'mismatch':
-            V('cmp:mismatch-accepted', f'{what} {opn}: mismatched lengths accepted, returned {show(r)}')
-            continue
         bad = invalid(r)
         if bad:
             V(f'closure:cmp:{bad}', f'{what} {opn}: result {show(r)}')
             continue
         if len(r) != len(S):
+            # the statement: "always yields a valid binary_sequence of the same length" (for a threshold of another length
+            # the library documents ValueError; a result of the signal's length would satisfy the statement as well)
             V('cmp:length', f'{what} {opn}: result length {len(r)} != {len(S)}')
             continue
         got = bits_in(r)
         obs.append(got)
+        if kind.startswith('mismatch'):
+            stats['cmp.mismatch-accepted-same-length'] = stats.get('cmp.mismatch-accepted-same-length', 0) + 1
         if not unchanged(x, xs) or not same(th, ts):
             V('operand-changed:cmp', f'{what} {opn}: an operand was modified')
         bufs = [x.signal] + ([x.noise] if x.noise is not None else []) + ([th] if isinstance(th, np.ndarray) else []) + \
                ([th.signal] if hasattr(th, 'signal') else [])
         if any(np.shares_memory(r.data, b) for b in bufs):
             V('alias:cmp:shared-memory', f'{what} {opn}: result shares memory with an operand')
-        if kind == 'ok' and ref is not None:
+        if kind in ('ok', 'okfree') and ref is not None:
             plain = tuple(int(v) for v in np.broadcast_to(fn(tot, ref) if not np.iscomplexobj(tot) else np.zeros(len(S), bool), (len(S),)))
             clause = in_class and not np.iscomplexobj(tot) and bool(np.all(S >= 0)) and bool(np.all(tot >= 0)) and bool(np.all(ref >= 0))
             if clause:
@@ -765,14 +1363,68 @@ def cmp_one(x, S, N, th, kind, ref, in_class, what, V, stats):
                 stats['cmp.negative-total'] = stats.get('cmp.negative-total', 0) + 1
                 if got != plain:
                     stats['cmp.negative-total.differs'] = stats.get('cmp.negative-total.differs', 0) + 1
+    # the queries of the result-independent operand (cached-attribute class): len() of the signal object after the comparisons
+    if x.len() != len(S) or len(x.signal) != len(S):
+        V('operand-changed:cmp', f'{what}: the signal reports len()={x.len()} after the comparison')
     return tuple(obs)
 
 
-def cmp_case(case):
-    """case = (class, S word): every noise word (absent + alphabet^n) x every threshold form x {>, <}"""
-    cls, Sw = case
+def build_signal(Sw, Nw, sform):
+    """the electrical_signal of the words Sw (signal) and Nw (noise or None) in the container / dtype form `sform`"""
     E = lib()[1]
-    Sa, Na = CMP[cls]
+    n = len(Sw)
+    base, _, ndt_forced = sform.partition('|noise:')
+
+    def cont(vals, isnoise):
+        if base in ('list', 'slice', 'index') or base.startswith('list:dtype='):
+            return list(vals)
+        if base == 'tuple':
+            return tuple(vals)
+        if base == 'str':
+            return ' '.join(str(v) for v in vals)
+        if base == 'scalar':
+            return vals[0]
+        kind, _, dt = base.partition(':')
+        dt = np.dtype(dt)
+        if isnoise:
+            if ndt_forced:
+                dt = np.dtype(ndt_forced)
+            elif dt.kind == 'b' or (dt.kind == 'u' and min(vals) < 0):
+                dt = np.dtype('float64')        # a noise word that the signal's dtype cannot hold is given in float64
+        if kind == 'npscalar':
+            return dt.type(vals[0])
+        return np.array(vals, dtype=dt)
+    if base in ('slice', 'index'):
+        big = E([9] + list(Sw) + [9]) if Nw is None else E([9] + list(Sw) + [9], [0] + list(Nw) + [0])
+        return big[1] if base == 'index' else big[1:1 + n]
+    kw = {}
+    if base.startswith('list:dtype='):
+        kw['dtype'] = np.dtype(base.split('=')[1]).type
+    if Nw is None:
+        return E(cont(Sw, False), **kw)
+    return E(cont(Sw, False), cont(Nw, True), **kw)
+
+
+def thin_noise(Na, n):
+    """noise absent, all-zero, and every word with exactly one non-zero entry"""
+    zero = 0 * Na[0]
+    out = [None, tuple([zero] * n)]
+    for pos in range(n):
+        for v in Na:
+            if v != zero:
+                w = [zero] * n; w[pos] = v
+                out.append(tuple(w))
+    return out
+
+
+def cmp_case(case):
+    """case = (class, S word[, signal form]): every noise word (absent + alphabet^n; for a signal form other than 'list':
+    absent, all-zero and the words with one non-zero entry) x every threshold form x {>, <}"""
+    cls, Sw = case[0], case[1]
+    sform = case[2] if len(case) > 2 else 'list'
+    E = lib()[1]
+    C = CMP[cls]
+    Sa, Na = C['S'], C['N']
     n = len(Sw)
     viol, seenk, stats, obs = [], {}, {}, []
 
@@ -780,46 +1432,124 @@ def cmp_case(case):
         if key not in seenk:
             seenk[key] = 1
             viol.append((key, msg))
-    ths = thresholds(n)
+    ths = thresholds(n, cls)
     nt = False
-    for Nw in [None] + list(itertools.product(Na, repeat=n)):
+    noises = [None] + list(itertools.product(Na, repeat=n)) if sform == 'list' else thin_noise(Na, n)
+    for Nw in noises:
         S = np.array(Sw)
         N = None if Nw is None else np.array(Nw)
-        x = E(list(Sw)) if Nw is None else E(list(Sw), list(Nw))
+        if sform == 'list':
+            x = E(list(Sw)) if Nw is None else E(list(Sw), list(Nw))
+        else:
+            x = build_signal(Sw, Nw, sform)
+        # the stored samples must be the words (a property of the electrical_signal constructor, not of C15: counted, not asserted)
+        stored = np.asarray(x.signal).astype(complex) + (0 if x.noise is None else np.asarray(x.noise).astype(complex))
+        if x.signal.shape != (n,) or not np.array_equal(stored, (S + N if N is not None else S).astype(complex)):
+            stats['cmp.skipped-construction-differs'] = stats.get('cmp.skipped-construction-differs', 0) + 1
+            continue
+        # bool + bool is a logical OR in numpy: a boolean signal with boolean noise is not a case of the equality clause
+        in_class = C['inclass'] and not (x.noise is not None and x.signal.dtype == np.bool_) and not np.iscomplexobj(x.signal)
+        stats[f'cmp.signal-dtype.{x.signal.dtype}'] = stats.get(f'cmp.signal-dtype.{x.signal.dtype}', 0) + 1
         for label, mk, kind, ref in ths:
             th = mk()
-            what = Lazy(lambda Nw=Nw, label=label: f'electrical_signal({list(Sw)}, noise={None if Nw is None else list(Nw)}) vs th={label}')
-            obs.append(cmp_one(x, S, N, th, kind, ref, cls in ('nonneg', 'nonneg-int'), what, V, stats))
+            what = Lazy(lambda Nw=Nw, label=label: f'electrical_signal<{sform}>({list(Sw)}, noise={None if Nw is None else list(Nw)}) vs th={label}')
+            obs.append(cmp_one(x, S, N, th, kind, ref, in_class, what, V, stats))
+        # the signal compared with itself / with a copy of itself: the same object on both sides
+        what = Lazy(lambda Nw=Nw: f'electrical_signal<{sform}>({list(Sw)}, noise={None if Nw is None else list(Nw)}) vs th=itself')
+        obs.append(cmp_one(x, S, N, x, 'ok' if N is None else 'free', (S if N is None and not np.iscomplexobj(S) else None), in_class, what, V, stats))
     if stats.get('cmp.noise-decides') or stats.get('cmp.in-clause'):
-        nt = (cls, Sw)
-    return res(viol=viol, obs=(cls, Sw, tuple(obs)), nontrivial=nt, stats=stats)
+        nt = (cls, Sw, sform)
+    return res(viol=viol, obs=(cls, Sw, sform, tuple(obs)), nontrivial=nt, stats=stats)
+
+
+LONG_KINDS = ('f64', 'f64+noise', 'f32', 'f32+noise', 'u8', 'u8+noise', 'i32', 'i32+noise(f64)')
 
 
 def cmp_long_case(case):
+    """seeded fields: float64 / float32 / uint8 / int32 samples, with and without noise (clipped so that S+N >= 0, integer
+    noise small enough not to wrap), against scalar, ndarray, list, electrical_signal thresholds (fractional AND
+    integer-valued) and a threshold of another length"""
     n, k, seed = case
     E = lib()[1]
     rng = np.random.RandomState((seed * 7919 + n * 31 + k) % (2 ** 31))
-    S = rng.random_sample(n)
-    N = np.maximum(rng.normal(0, 0.2, n), -S) if k % 2 else None
-    x = E(S.copy()) if N is None else E(S.copy(), N.copy())
+    kind = LONG_KINDS[k % len(LONG_KINDS)]
+    noisy = '+noise' in kind
+    if kind.startswith('f'):
+        dt = np.float64 if kind.startswith('f64') else np.float32
+        Sx = rng.random_sample(n).astype(dt)
+        Nx = np.maximum(rng.normal(0, 0.2, n).astype(dt), -Sx) if noisy else None
+        tharr = rng.random_sample(n)
+        sc = 0.5
+    elif kind.startswith('u8'):
+        Sx = rng.randint(0, 200, n).astype(np.uint8)
+        Nx = rng.randint(0, 50, n).astype(np.uint8) if noisy else None
+        tharr = np.floor(rng.random_sample(n) * 250) + rng.randint(0, 2, n) * 0.5      # integers and half-integers: ties and floor(th) == sample occur
+        sc = 99.5
+    else:
+        Sx = rng.randint(0, 1000, n).astype(np.int32)
+        Nx = np.maximum(rng.normal(0, 20, n), -Sx.astype(float)) if noisy else None
+        tharr = np.floor(rng.random_sample(n) * 1000) + rng.randint(0, 2, n) * 0.5
+        sc = 499.5
+    x = E(Sx.copy()) if Nx is None else E(Sx.copy(), Nx.copy())
+    # model in the arithmetic of the stored dtype (one rounding of S+N in that dtype is what "signal+noise" is), compared in float64
+    S = np.asarray(x.signal)
+    N = None if Nx is None else np.asarray(x.noise)
     viol, seenk, stats, obs = [], {}, {}, []
 
     def V(key, msg):
         if key not in seenk:
             seenk[key] = 1
             viol.append((key, msg))
-    tharr = rng.random_sample(n)
-    for label, th, kind, ref in (('scalar.5', 0.5, 'ok', np.asarray(0.5)), ('nd', tharr.copy(), 'ok', tharr),
-                                 ('list', list(tharr), 'ok', tharr), ('E', E(tharr.copy()), 'ok', tharr),
-                                 ('mismatch', np.full(n + 1, 0.5), 'mismatch', None)):
-        o = cmp_one(x, S, N, th, kind, ref, True, f'seeded field n={n} k={k} th={label}', V, stats)
+    if not (np.array_equal(S.astype(float), Sx.astype(float)) and (Nx is None or np.array_equal(N.astype(float), Nx.astype(x.noise.dtype).astype(float)))):
+        return res(obs=(n, k, 'construction-differs'), stats={'cmp.skipped-construction-differs': 1})
+    thint = np.floor(tharr)
+    for label, th, tkind, ref in (('scalar', sc, 'ok', np.asarray(sc)), ('nd', tharr.copy(), 'ok', tharr),
+                                  ('list', list(tharr), 'ok', tharr), ('E', E(tharr.copy()), 'ok', tharr),
+                                  ('nd-f32', tharr.astype(np.float32), 'ok', tharr.astype(np.float32).astype(float)),
+                                  ('nd-int', thint.astype(np.int64), 'ok', thint), ('tuple', tuple(tharr), 'ok', tharr),
+                                  ('mismatch', np.full(n + 1, sc), 'mismatch', None), ('mismatch-1', np.full(n + 7, sc), 'mismatch', None)):
+        o = cmp_one(x, S, N, th, tkind, ref, True, f'seeded field n={n} {kind} th={label}', V, stats)
         obs.append(tuple(hash(t) & 0xffffffff if isinstance(t, tuple) else t for t in o))
     import hashlib
     return res(viol=viol, obs=(n, k, hashlib.sha256(repr(obs).encode()).hexdigest()[:16]), nontrivial=(n, k), stats=stats)
 
 
+def gv_case(case):
+    """global-grid histories: nothing in the scope of this property reads `gv`; this part demonstrates the independence on
+    the enumerated histories instead of assuming it: after every configuration call of a history a BFS expansion, a leaf
+    construction sweep, an indexing sweep and two comparison cases are repeated; no violation may appear and the
+    observations must be identical to those under the default grid."""
+    from mcx.core.env import gv_reset
+    hist = GV_HISTORIES[case]
+
+    def observe():
+        rs = (expand(('deep', 0b110, 'list', ())), leaf_case(0b1011), cmp_case(('nonneg-int', (1, 2))), cmp_case(('nonneg', (0.25,))),
+              index_case(0b101))
+        return tuple(r['obs'] for r in rs), [v for r in rs for v in r['viol']]
+    gv_reset()
+    ref, _ = observe()
+    viol = []
+    for kw in hist:
+        gv_reset(**kw)
+        got, viols = observe()
+        if viols:
+            viol.append((viols[0][0], f'after gv history {hist}: {viols[0][1]}'))
+        if got != ref:
+            viol.append(('gv-dependence', f'after the gv history {hist} the observations of the binary_sequence algebra / comparison differ from the default grid'))
+    gv_reset()
+    import hashlib
+    return res(viol=viol, obs=(case, hashlib.sha256(repr(ref).encode()).hexdigest()[:16]), nontrivial=case, stats={'gv.configurations': len(hist)})
+
+
+GV_HISTORIES = [
+    [dict(sps=8, R=1e9)], [dict(sps=16, fs=32e9)], [dict(R=2.5e9, fs=40e9)], [dict(sps=7, fs=33.3e9)], [dict(R=1.25e9, fs=13.7e9)],
+    [dict(fs=77e9)], [dict(sps=8, R=10e9, wavelength=1310e-9)], [dict(sps=4, R=1e9, N=128)], [dict(sps=1, R=1e9)],
+    [dict(sps=8, R=1e9), dict(sps=32, R=40e9, N=7)], [dict(fs=77e9), dict(sps=3, R=1e9)], [dict(sps=8, R=1e9, alpha=0.5, data=[0, 1])],
+]
+
+
 # ------------------------------------------------------------------ driver
-def bfs(ctx, name, leaves, depth, expand_maxlen=None):
+def bfs(ctx, name, leaves, depth, expand_maxlen=None, xfull=True):
     """leaves: list of (code, form). Level 0 = the leaves (op set 'full'), level k+1 = the NEW canonical states produced
     by level k (op set 'deep'); every op is executed from every state of the levels < depth.  `expand_maxlen`: states
     of the levels >= 1 longer than this are recorded but not expanded (tier bound).  Returns (states, transitions)."""
@@ -830,13 +1560,18 @@ def bfs(ctx, name, leaves, depth, expand_maxlen=None):
         frontier.append((code, form, ()))
     transitions = 0
     for level in range(depth):
-        mode = 'full' if level == 0 else 'deep'
-        ops = ops_for(mode)
-        cases = [(mode, c, f, p) for c, f, p in frontier]
+        def mode_of(c):
+            if level > 0:
+                return 'deep'
+            return 'xfull' if (xfull and c.bit_length() - 1 <= XFULL_MAXLEN) else 'full'
+        cases = [(mode_of(c), c, f, p) for c, f, p in frontier]
         last = level == depth - 1
         payloads = ctx.pmap(f'{name}.level{level}', expand, cases, horizon=120, quiet=True)
         nxt = []
-        for (c, f, p), pl in zip(frontier, payloads):
+        nops = 0
+        for (m, c, f, p), pl in zip(cases, payloads):
+            ops = ops_for(m)
+            nops += len(ops)
             if pl is None:
                 continue
             succ, nt = pl
@@ -846,7 +1581,7 @@ def bfs(ctx, name, leaves, depth, expand_maxlen=None):
                     seen.add(k)
                     if not last and (expand_maxlen is None or (k >> 2).bit_length() - 1 <= expand_maxlen):
                         nxt.append((c, f, p + (ops[oi],)))
-        print(f'[C15] {name} level {level}: expanded={len(frontier)} ops/state={len(ops)} states={len(seen)} '
+        print(f'[C15] {name} level {level}: expanded={len(frontier)} ops executed or refused={nops} states={len(seen)} '
               f'transitions={transitions} next={len(nxt)}', flush=True)
         frontier = nxt
         if not frontier:
@@ -857,22 +1592,36 @@ def bfs(ctx, name, leaves, depth, expand_maxlen=None):
 def run(ctx):
     thorough = not ctx.quick
     l1max = None if thorough else 14
-    ctx.rule('C15: (1) every word of length 0..12 constructed in every accepted container form (str plain/spaced/comma/comma+space, list, '
-             'tuple, bool list, ndarray bool/int64/float64/uint8, five scalar spellings for length 1) + the 8 unary ops from every form; '
+    ctx.rule('C15: (1) every word of length 0..12 constructed in every accepted container form (str plain/spaced/comma/comma+space/mixed '
+             'separators, list/tuple of int, bool, float, -0.0, complex, numpy scalars, mixed element types, ndarray of every sample dtype '
+             '[bool, int8..int64, uint8..uint64, float16/32/64, complex64/128, object], non-contiguous and negative-stride arrays, 17 scalar '
+             'spellings for length 1) + unary ops from every form, len/ones/zeros asked before and after every op, and on never-queried objects; '
              '(2) BFS over expression programs: every op (a+w, w+a for w in every accepted form [4 str, 3 list/tuple, 4 ndarray, '
-             'binary_sequence] of every word of length <= 4 at the first level, <= 2 deeper; ~a; 7 slices; 18 invalid operands in both '
-             'orders at the first level) executed on the real object rebuilt by replaying its path from the leaf, in lock-step with a '
+             'binary_sequence] of every word of length <= 4 at the first level, <= 2 deeper; ~a; 7 slices; a+a; a[:k]+a[k:], a+a[k:k], a[k:k]+a, '
+             'a+~a, ~a+a; 18 invalid operands in both orders at the first level; from the leaves of length <= 8 additionally every word of '
+             'length <= 4 in the 21 extended operand forms, 88 further operands that must be refused and 45 operands the statement is silent on) '
+             'executed on the real object rebuilt by replaying its path from the leaf, in lock-step with a '
              'tuple-of-bits model; states deduplicated by canonical form (word, layout flags of .data); '
              + ('depth 2 from every leaf of length <= 12, plus depth 4 from the leaves of length <= 6 with its own visited set, plus the '
                 'first-level expansion of the leaves of length <= 8 from EVERY container form; ' if thorough else
                 'quick: depth 1 from every leaf of length <= 12 and depth 2 from the leaves of length <= 10 (second-level states up to length 14); ')
-             + '(3) table + generated invalid constructions; (4) long words up to 65537 bits (fixed patterns + seeded content); '
-             '(5) x > th, x < th over value alphabets ^ n (n <= ' + ('3' if thorough else '2') + ') x every noise word x threshold forms')
+             + '(3) table + generated invalid constructions (one non-binary value in every container context and dtype, boundary values of '
+             'every dtype, invalid string tokens with every separator, every non-1-D shape, ragged / nested containers, non-data objects) and '
+             'constructions the statement is silent on; (4) long words up to 65537 bits (fixed patterns + seeded content); '
+             '(5) x > th, x < th over value alphabets ^ n (n <= ' + ('3' if thorough else '2') + ') x every noise word x threshold forms, '
+             'scaled / offset / extreme-value classes, and a signal container / dtype axis; (6) every integer index (8 integer kinds) and every '
+             'slice start:stop:step of every word of length <= ' + ('9' if thorough else '6') + '; (7) never-queried operands x the deep op set; '
+             '(8) the same cases after 12 global-grid histories')
     ctx.assume('the behaviour of a binary_sequence depends only on its .data array (bytes, dtype, shape, contiguity/alignment flags), which is '
                'what the canonical form records; execution_time is ignored')
     ctx.assume('comparison clause read conservatively: equality with (S+N) > th is demanded only where S >= 0, S+N >= 0 and th >= 0 '
-               '(all real); elsewhere only validity and length (cases with S >= 0 but S+N < 0 are counted in stats cmp.negative-total*)')
-    ctx.assume('a[0] / a[-1] on the empty sequence: the statement is silent, IndexError accepted; the empty string is not an accepted spelling')
+               '(all real); elsewhere only validity and length (cases with S >= 0 but S+N < 0 are counted in stats cmp.negative-total*); a boolean '
+               'signal with boolean noise (numpy: + is OR) is outside the clause; a threshold of another length: ValueError or a result of the '
+               "signal's length")
+    ctx.assume('a[0] / a[-1] on the empty sequence and every out-of-range integer index: the statement is silent, any exception accepted; '
+               'the empty string is not an accepted spelling; inputs listed as "free" (tab/newline separators, doubled separators, float / signed / '
+               'complex spellings of 0 and 1 in strings, range, bytearray, sets, generators, lists of strings, binary_sequence / electrical_signal '
+               'objects, scalar operands of +): ValueError/TypeError or a valid sequence')
     # -- regression case for the known defect (ndarray on the left of +)
     ctx.run_case('regress', expand, ('deep', 0b110, 'list', ()))
 
@@ -888,38 +1637,78 @@ def run(ctx):
         leaf_keys.update(x or [])
     ctx.extra['leaf_canonical_forms'] = len(leaf_keys)
 
+    # (6) indexing, (7) never-queried operands
+    ctx.pmap('indexing', index_case, list(words(9 if thorough else 6)), horizon=120)
+
+    def rr(code):
+        f = forms_for(code.bit_length() - 1, leaf=True, ext=True)
+        return f[code % len(f)]
+    ctx.pmap('cold', cold_case, [(c, rr(c)) for c in words(10 if thorough else 8)], horizon=60)
+
     # (2) BFS from every leaf; the starting object is built from one form per leaf (round-robin over the forms; every
     # form was verified in (1) to give the identical canonical object)
-    def rr(code):
-        f = forms_for(code.bit_length() - 1, leaf=True)
-        return f[code % len(f)]
     st, tr = bfs(ctx, 'bfs', [(c, rr(c)) for c in leaves], depth=2, expand_maxlen=l1max)
     ctx.graph(states=st, transitions=tr)
-    ctx.extra['bfs_all_leaves'] = {'leaves': len(leaves), 'depth': 2, 'second_level_maxlen': l1max, 'states': st, 'transitions': tr}
+    ctx.extra['bfs_all_leaves'] = {'leaves': len(leaves), 'depth': 2, 'second_level_maxlen': l1max, 'states': st, 'transitions': tr,
+                                   'ops_per_state': {m: len(ops_for(m)) for m in ('xfull', 'full', 'deep')}}
     if thorough:
-        cases = [('full', c, f, ()) for c in words(8) for f in forms_for(c.bit_length() - 1, leaf=True)]
+        cases = [('full', c, f, ()) for c in words(8) for f in forms_for(c.bit_length() - 1, leaf=True, ext=True)]
         pls = ctx.pmap('bfs-everyform.level0', expand, cases, horizon=120, quiet=True)
         tr2 = sum(p[1] for p in pls if p)
         ctx.graph(states=0, transitions=tr2)
         ctx.extra['bfs_every_form'] = {'starts': len(cases), 'transitions': tr2}
         print(f'[C15] every-form level 0: starts={len(cases)} transitions={tr2}', flush=True)
-        st6, tr6 = bfs(ctx, 'deep6', [(c, rr(c)) for c in words(6)], depth=4)
+        st6, tr6 = bfs(ctx, 'deep6', [(c, rr(c)) for c in words(6)], depth=4, xfull=False)
         ctx.graph(states=0, transitions=tr6)
         ctx.extra['bfs_deep6'] = {'leaves': 127, 'depth': 4, 'states': st6, 'transitions': tr6}
 
     # (4) long words
     longs = []
-    for n in (13, 31, 64, 255, 256, 257, 1000, 4097, 65537):
+    xf = ['str_mix', 'list_np', 'list_complex', 'list_negzero', 'tuple_bool', 'nd_i8', 'nd_f16', 'nd_f32', 'nd_c64', 'nd_u64', 'nd_obj',
+          'nd_strided', 'nd_rev']
+    j = 0
+    for n in (13, 31, 64, 97, 127, 255, 256, 257, 1000, 1023, 1024, 1025, 4095, 4096, 4097, 65535, 65536, 65537):
         for kind in ('zeros', 'ones', 'alt', 'rnd0', 'rnd1'):
-            for form in (('str', 'list', 'nd_bool', 'nd_u8', 'nd_float') if n <= 4097 else ('nd_u8', 'str')):
+            if n <= 4097:
+                forms = ['str', 'list', 'nd_bool', 'nd_u8', 'nd_float'] + ([xf[(j + i) % len(xf)] for i in range(3)] if not thorough else xf)
+                j += 3
+            else:
+                forms = ['nd_u8', 'str', 'nd_f32', 'nd_strided']
+            for form in forms:
                 longs.append((n, kind, ctx.seed, form))
     ctx.pmap('long-words', long_case, longs, horizon=120)
 
     # (5) comparisons
     cm = []
     for n in ((1, 2, 3) if thorough else (1, 2)):
-        for cls in CMP:
-            for Sw in itertools.product(CMP[cls][0], repeat=n):
+        for cls in ('nonneg', 'nonneg-int', 'signed', 'complex'):
+            for Sw in itertools.product(CMP[cls]['S'], repeat=n):
+                cm.append((cls, Sw))
+    # scale / offset / extreme-value classes
+    for n in ((1, 2) if thorough else (1,)):
+        for cls in ('nonneg-tiny', 'nonneg-big'):
+            for Sw in itertools.product(CMP[cls]['S'], repeat=n):
+                cm.append((cls, Sw))
+    for n in (1, 2):
+        for cls in ('nonneg-offset', 'nonneg-extreme'):
+            for Sw in itertools.product(CMP[cls]['S'], repeat=n):
                 cm.append((cls, Sw))
     ctx.pmap('compare', cmp_case, cm, horizon=120)
-    ctx.pmap('compare-long', cmp_long_case, [(n, k, ctx.seed) for n in (16, 1000, 4096) for k in range(4)], horizon=60)
+    # signal container / dtype axis: every word of length 1; length 2: a cyclic chain of words (quick) / every word (thorough)
+    cf = []
+    for n in (1, 2):
+        for cls, forms in SIG_FORMS.items():
+            Sa = CMP[cls]['S']
+            ws = list(itertools.product(Sa, repeat=n)) if (n == 1 or thorough) else [(Sa[i], Sa[(i + 1) % len(Sa)]) for i in range(len(Sa))]
+            for Sw in ws:
+                for sf in forms:
+                    if n > 1 and (sf in ('scalar', 'index') or sf.startswith('npscalar')):
+                        continue
+                    if sf.startswith('nd:bool') and max(Sw) > 1:
+                        continue
+                    cf.append((cls, Sw, sf))
+    ctx.pmap('compare-forms', cmp_case, cf, horizon=120)
+    ctx.pmap('compare-long', cmp_long_case, [(n, k, ctx.seed) for n in (1, 2, 3, 13, 16, 127, 1000, 1023, 1024, 1025, 4096, 4097)
+                                             for k in range(len(LONG_KINDS))], horizon=60)
+    # (8) global-grid histories
+    ctx.pmap('gv-histories', gv_case, list(range(len(GV_HISTORIES))), horizon=120)
